@@ -34,6 +34,9 @@ type Case struct {
 	Policy  model.Policy `json:"policy"`
 	ViaNew  bool         `json:"vianew,omitempty"` // destination created by NewFrom(in) instead of Merge into an existing one
 	NoSep   bool         `json:"nosep,omitempty"`  // no path separator given
+	// provenance: the source was loaded with MetaData{Source: "src.yml"} / the merge call passes MetaData{Source: "merge.yml"}
+	SrcMeta   bool `json:"srcmeta,omitempty"`
+	MergeMeta bool `json:"mergemeta,omitempty"`
 	Ops     []Op         `json:"ops"`
 }
 
@@ -51,6 +54,8 @@ func genCase(t *rapid.T) Case {
 		ViaNew: rapid.IntRange(0, 5).Draw(t, "vianew") == 0,
 		NoSep:  rapid.IntRange(0, 3).Draw(t, "nosep") == 0,
 	}
+	c.SrcMeta = rapid.IntRange(0, 2).Draw(t, "srcmeta") == 0
+	c.MergeMeta = rapid.IntRange(0, 2).Draw(t, "mergemeta") == 0
 	n := rapid.IntRange(1, 6).Draw(t, "nops")
 	for i := 0; i < n; i++ {
 		c.Ops = append(c.Ops, Op{OnSrc: rapid.Bool().Draw(t, "onsrc"), Kind: rapid.IntRange(0, 5).Draw(t, "kind"),
@@ -195,15 +200,19 @@ func runCase(c Case, r *runlog.R) error {
 	}
 	var S *ucfg.Config
 	var err error
+	srcOpts := opts
+	if c.SrcMeta {
+		srcOpts = append(append([]ucfg.Option{}, opts...), ucfg.MetaData(ucfg.Meta{Source: "src.yml"}))
+	}
 	if c.AsChild {
-		root, e := ucfg.NewFrom(map[string]interface{}{"wrap": srcData, "other": 1, "a": "outer"}, opts...)
+		root, e := ucfg.NewFrom(map[string]interface{}{"wrap": srcData, "other": 1, "a": "outer"}, srcOpts...)
 		if e != nil {
 			return fmt.Errorf("building the source failed: %v", e)
 		}
 		if S, err = root.Child("wrap", -1); err != nil {
 			return fmt.Errorf("Child(wrap): %v", err)
 		}
-	} else if S, err = ucfg.NewFrom(srcData, opts...); err != nil {
+	} else if S, err = ucfg.NewFrom(srcData, srcOpts...); err != nil {
 		return fmt.Errorf("building the source failed: %v", err)
 	}
 	src := &side{name: "source", c: S}
@@ -213,6 +222,11 @@ func runCase(c Case, r *runlog.R) error {
 
 	in, nested := embed(c.Embed, S)
 	mopts := append(append([]ucfg.Option{}, opts...), uc.PolicyOpts(c.Policy)...)
+	if c.MergeMeta {
+		mopts = append(mopts, ucfg.MetaData(ucfg.Meta{Source: "merge.yml"}))
+	}
+	r.ClassIf(c.SrcMeta, "source carries metadata")
+	r.ClassIf(c.MergeMeta, "merge call passes MetaData")
 	var D *ucfg.Config
 	if c.ViaNew {
 		if err := uc.Safe("NewFrom", func() (e error) { D, e = ucfg.NewFrom(in, mopts...); return }); err != nil {
